@@ -40,6 +40,9 @@ func (e *Engine) installExternals() {
 	x["(*sync.WaitGroup).Add"] = func(fr *frame, a []Value) Value { e.wgAdd(fr.g, a[0].(*Value), a[1]); return nil }
 	x["(*sync.WaitGroup).Done"] = func(fr *frame, a []Value) Value { e.wgAdd(fr.g, a[0].(*Value), int64(-1)); return nil }
 	x["(*sync.WaitGroup).Wait"] = func(fr *frame, a []Value) Value { e.wgWait(fr.g, a[0].(*Value)); return nil }
+	x["(*sync.Cond).Wait"] = func(fr *frame, a []Value) Value { e.condWait(fr, a[0].(*Value)); return nil }
+	x["(*sync.Cond).Signal"] = func(fr *frame, a []Value) Value { e.condSignal(fr, a[0].(*Value), false); return nil }
+	x["(*sync.Cond).Broadcast"] = func(fr *frame, a []Value) Value { e.condSignal(fr, a[0].(*Value), true); return nil }
 	x["(*sync.Once).Do"] = func(fr *frame, a []Value) Value {
 		p := a[0].(*Value)
 		e.opLock(fr.g, p, "Once.Do")
